@@ -469,6 +469,15 @@ class Master(loader.Loader):
                 )
 
                 self._update_task(app, servername, why=None)
+            for app in correct & current:
+                # Placement was kept, but identity or expiration may have
+                # changed when the placement was restored.
+                placement_data = self._placement_data(app)
+                app_node = os.path.join(placement_node, app)
+                if self.backend.get_default(app_node) != placement_data:
+                    _LOGGER.info('Updating: %s - %s,%s',
+                                 servername, app, placement_data)
+                    self.backend.put(app_node, placement_data)
 
         self._save_placement(placement)
         self.up_to_date = True
